@@ -90,6 +90,11 @@ CQ == UNION {Quants(c) : c \in Classes}
 CC(z) == CQ \cup {Cat(p, q) : p \in CQ, q \in CQ}
 CC3(z) == {Cat(Plus(c1,TRUE), Cat(q, Plus(c3,TRUE))) : c1 \in Classes, q \in CQ, c3 \in Classes}
 
+\* all-plus ASCII sequences of three and four classes (the composite sequence DFA): a family of its own, so that every run sees them
+AClasses == {Cls({sa,sb}), Cls({sb,sc}), Cls({s0,s1}), Cls({sa,s0}), Cls({sa})}
+TRI(z) == {Cat(Plus(c1,TRUE), Cat(Plus(c2,TRUE), Plus(c3,TRUE))) : c1 \in AClasses, c2 \in AClasses, c3 \in AClasses}
+          \cup {Cat(Plus(c1,TRUE), Cat(Plus(c2,TRUE), Cat(Plus(c1,TRUE), Plus(c3,TRUE)))) : c1 \in {Cls({sa,sb}), Cls({sa,s0})}, c2 \in {Cls({sb,sc}), Cls({sa,sb})}, c3 \in {Cls({s0,s1}), Cls({sb,sc})}}
+
 (* ---- digit-lead patterns ---- *)
 Dg == Cls({s0,s1,s9})
 DIG(z) == {Cat(Plus(Dg,TRUE), Cat(Lit(sdot), Plus(Dg,TRUE))),
@@ -156,6 +161,7 @@ FamilySet(f) ==
   CASE f = "BIG" -> BIGL(0)
     [] f = "OP"  -> OP(0)
     [] f = "G1"  -> G1(0)
+    [] f = "TRI" -> TRI(0)
     [] f = "LIT" -> LIT(0) \cup LITF(0)
     [] f = "REV" -> SUF(0) \cup INN(0) \cup SET(0) \cup ML(0) \cup OVL(0)
     [] f = "ANC" -> ANC(0)
@@ -166,7 +172,7 @@ FamilySet(f) ==
 
 G2Base(f) == SetToSeq(Close(CASE f = "G2a" -> G2aAtoms [] f = "G2m" -> G2mAtoms [] f = "G2u" -> G2uAtoms [] f = "G2x" -> G2xAtoms, f # "G2u"))
 IsG2(f) == f \in {"G2a","G2m","G2u","G2x"}
-FamilyNames == <<"G2a","G2m","G2u","G2x","LIT","REV","ANC","CC","DIG","CAP","U8","BIG","OP","G1">>
+FamilyNames == <<"G2a","G2m","G2u","G2x","LIT","REV","ANC","CC","DIG","CAP","U8","BIG","OP","G1","TRI">>
 
 (* --------------------------- haystack alphabets -------------------------- *)
 \* fold partners present in the table
@@ -216,6 +222,12 @@ Splice(prog, al, cap) ==
       c   == Cardinality(all)
       m   == IF c <= cap THEN 1 ELSE (c + cap - 1) \div cap
   IN {x \in all : SpliceSumAcc(x, 1, Len(x)) % m = 0}
+
+(* A fixed pseudo-random sample of longer haystacks (length 6 and 8) over the pattern's alphabet, chosen by the pattern's
+   index: attempts that run for a while before they die, restarts inside what a failed attempt consumed. *)
+Sampled(al, seedv, n, len) ==
+  LET A == SetToSeq(al)  c == Len(A)
+  IN IF c = 0 THEN {} ELSE {[k \in 1..len |-> A[((seedv * 7 + j * 31 + k * k * 17 + j * k * 5 + (j * j) \div (k + 1)) % c) + 1]] : j \in 1..n}
 
 RECURSIVE LenFor(_,_,_)
 LenFor(k, budget, lcap) == IF lcap <= 1 \/ GeoSum(k, lcap) <= budget THEN lcap ELSE LenFor(k, budget, lcap - 1)
